@@ -508,6 +508,7 @@ def hunt_rules(chk, repo):
     hunt4_rules(chk, repo)
     round6_rules(chk, repo)
     hunt5_rules(chk, repo)
+    round7_rules(chk, repo)
     # ---- C19.textsize: a text-mode file's byte size is its payload size only under the same codec (shared with C04) --------------------------
     textsize(chk, repo, "C19.size")
 
@@ -579,6 +580,36 @@ def hunt5_rules(chk, repo):
         else:
             chk.violation("C19.size.nested", sets[0], K.short(sets[0]), "elif isinstance(payload, MultipartWriter): payload.headers.pop(CONTENT_LENGTH, None)",
                           "_part_encodings() writes a part's Content-Length when its size is known and never takes it back: `root.append(sub)` stores `Content-Length: 9` on the nested writer, `sub.append(data, {'Content-Transfer-Encoding': 'base64'})` makes sub.size None, and write() / as_bytes() still send `Content-Length: 9` in front of a 570-byte nested body")
+
+
+def round7_rules(chk, repo):
+    """Rule written after seeding round 7 (seed C19-7): the header block of a part is serialised after its headers were brought up to date.
+    _part_encodings(part) looks like a getter but keeps the part's Content-Length current (removed for an encoded part, refreshed otherwise;
+    headers may be set after append()).  What write() / as_bytes() send as the part's header block has to be read from `_binary_headers`
+    behind that call, in the same iteration - a block rendered earlier declares a stale length."""
+    for fname in ("write", "as_bytes"):
+        fn = repo.func(MP, f"MultipartWriter.{fname}")
+        loops = [l for l in ast.walk(fn.node) if isinstance(l, (ast.For, ast.AsyncFor)) and "self._parts" in norm.raw(l.iter)]
+        if not loops:
+            chk.analysis_error(f"C19.headers.order: the loop over self._parts was not found in MultipartWriter.{fname}")
+            continue
+        lp = loops[0]
+        enc = [c for c in ast.walk(lp) if isinstance(c, ast.Call) and norm.raw(c.func) == "self._part_encodings"]
+        reads = [a for a in ast.walk(lp) if isinstance(a, ast.Attribute) and a.attr == "_binary_headers"]
+        # names of the loop target other than the part tuple: a value that was prepared before the loop
+        outside = {x.id for x in ast.walk(lp.target) if isinstance(x, ast.Name)} - {"part", "_e", "_te", "encoding", "te_encoding"}
+        stale = [x for x in ast.walk(lp) if isinstance(x, ast.Name) and x.id in outside and isinstance(x.ctx, ast.Load)
+                 and any(isinstance(a, ast.Attribute) and a.attr == "_binary_headers" for m_ in repo.cls(MP, "MultipartWriter").methods.values() for a in ast.walk(m_.node))
+                 and "zip(" in norm.raw(lp.iter)]
+        if stale:
+            chk.violation("C19.headers.order", stale[0], K.short(K.stmt_of(stale[0])), "part._binary_headers, read after self._part_encodings(part) in the same iteration",
+                          f"MultipartWriter.{fname}() sends a header block that was rendered before the loop (`{stale[0].id}`), i.e. before _part_encodings(part) brought the part's Content-Length up to date: a part whose Content-Encoding is set after append() goes out compressed but declares the plain length - the reader reads by length and fails with `Reader did not read all the data or it is malformed` - and a nested writer that was filled after append() declares `Content-Length: 11` in front of 164 bytes")
+        elif enc and reads and all(r.lineno > min(c.lineno for c in enc) for r in reads):
+            chk.ok("C19.headers.order", reads[0], f"MultipartWriter.{fname}(): each part's header block is serialised behind _part_encodings(part) of the same iteration")
+        elif not reads:
+            chk.violation("C19.headers.order", lp, K.short(lp, 60), "part._binary_headers inside the loop", f"MultipartWriter.{fname}() does not serialise the part headers inside its loop over the parts: the block it sends was rendered before the headers were brought up to date")
+        else:
+            chk.violation("C19.headers.order", reads[0], K.short(K.stmt_of(reads[0])), "self._part_encodings(part) first", f"MultipartWriter.{fname}() reads part._binary_headers in front of _part_encodings(part): the Content-Length of the block is stale")
 
 
 def round6_rules(chk, repo):
